@@ -584,7 +584,7 @@ Proof.
         specialize (Ho k' Hq). unfold last_of in *; cbn in *. lia.
 Qed.
 
-(* ---------------------------------------------------------------- admitting a new blob *)
+(* ---------------------------------------------------------------- a new blob enters the store *)
 Lemma evictableb_add k sz d kc k' : assoc k (k_blobs kc) = None -> evictableb (add_blob k sz d kc) k' = evictableb kc k'.
 Proof.
   intros Hn. unfold evictableb. rewrite add_blob_blobs, assoc_app.
@@ -1281,4 +1281,131 @@ Theorem md_complete bk fx c k b s :
 Proof.
   intros Hb Hc. unfold cstep. cbn [plain_step]. rewrite Hb, Hc. cbn [fst snd c_core]. split; auto.
   unfold md_of. rewrite upd_blob_blobs, assoc_update_eq, Hb. cbn. apply assoc_filter_fst.
+Qed.
+
+(* ================================================================ soundness of the trace oracle *)
+Lemma list_eqb_refl {A} (e : A -> A -> bool) l : (forall x, e x x = true) -> list_eqb e l l = true.
+Proof. intros H. induction l; cbn; auto. now rewrite H, IHl. Qed.
+Lemma err_eqb_refl e : err_eqb e e = true.
+Proof. now destruct e. Qed.
+Lemma out_eqb_refl o : out_eqb o o = true.
+Proof.
+  destruct o; cbn; auto; rewrite ?N.eqb_refl, ?Z.eqb_refl, ?err_eqb_refl, ?eqb_reflx; auto;
+    try (apply list_eqb_refl; apply N.eqb_refl).
+  - rewrite list_eqb_refl by apply N.eqb_refl. auto.
+  - destruct e; rewrite ?N.eqb_refl, ?err_eqb_refl; auto.
+Qed.
+Lemma snap_eqb_refl n : snap_eqb n n = true.
+Proof.
+  unfold snap_eqb. rewrite N.eqb_refl, !list_eqb_refl; auto.
+  - intros [k [[[sz c] b] nd]]. cbn. now rewrite !N.eqb_refl, !eqb_reflx.
+  - apply N.eqb_refl.
+Qed.
+Lemma obs_eqb_refl l : obs_eqb l l = true.
+Proof. apply list_eqb_refl. intros [o n]. cbn. now rewrite out_eqb_refl, snap_eqb_refl. Qed.
+
+Section RowSum.
+Variable g : N -> N.
+Definition ksum (l : list N) : N := fold_right (fun k acc => g k + acc) 0 l.
+Lemma ksum_insert f k l : ksum (insert_by f k l) = g k + ksum l.
+Proof.
+  unfold ksum. induction l as [|x t IH]; cbn; auto. destruct (f k <=? f x); cbn; auto. rewrite IH. lia.
+Qed.
+Lemma ksum_isort f l : ksum (isort f l) = ksum l.
+Proof. induction l as [|x t IH]; cbn [isort]; auto. rewrite ksum_insert. unfold ksum in *. cbn. now rewrite IH. Qed.
+End RowSum.
+
+Lemma ksum_ext g h l : (forall k, In k l -> g k = h k) -> ksum g l = ksum h l.
+Proof.
+  unfold ksum. induction l as [|x t IH]; cbn; auto. intros H. rewrite IH, (H x) by auto. reflexivity.
+Qed.
+
+Definition size_of (bl : list (key * blob)) (k : key) : N :=
+  match assoc k bl with Some b => b_size b | None => 0 end.
+
+Lemma ksum_keys bl : NoDup (map fst bl) -> ksum (size_of bl) (map fst bl) = sum_sizes bl.
+Proof.
+  induction bl as [|[k b] t IH]; intros Hn; [reflexivity|].
+  inversion Hn as [|? ? Hk Hn']; subst. cbn [map fst ksum fold_right]. rewrite sum_sizes_cons.
+  unfold size_of at 1. cbn [assoc]. rewrite N.eqb_refl. f_equal.
+  rewrite <- IH by auto. apply ksum_ext. intros k' Hk'. unfold size_of. cbn [assoc].
+  destruct (N.eqb_spec k k'); [subst; contradiction|reflexivity].
+Qed.
+
+Lemma rows_sum kc q :
+  fold_right (fun r acc => row_size r + acc) 0 (blob_rows kc q) = ksum (size_of (k_blobs kc)) (sort_keys (map fst (k_blobs kc))).
+Proof.
+  unfold blob_rows. induction (sort_keys (map fst (k_blobs kc))) as [|k t IH]; cbn; auto.
+  rewrite IH. f_equal. unfold size_of, row_size. cbn. now destruct (assoc k (k_blobs kc)).
+Qed.
+
+Lemma assoc_rows kc q k :
+  assoc k (blob_rows kc q) =
+  match assoc k (k_blobs kc) with
+  | Some b => Some (b_size b, b_complete b, b_banned b, memN k q)
+  | None => None
+  end.
+Proof.
+  unfold blob_rows.
+  assert (H : forall l, assoc k (map (fun k0 => (k0, match assoc k0 (k_blobs kc) with
+                    | Some b => (b_size b, b_complete b, b_banned b, memN k0 q)
+                    | None => (0, false, false, false) end)) l) =
+              if memN k l then Some (match assoc k (k_blobs kc) with
+                    | Some b => (b_size b, b_complete b, b_banned b, memN k q)
+                    | None => (0, false, false, false) end) else None).
+  { induction l as [|x t IH]; cbn; auto. rewrite (N.eqb_sym k x). destruct (N.eqb_spec x k); subst; cbn; auto. }
+  rewrite H. destruct (assoc k (k_blobs kc)) as [b|] eqn:E.
+  - assert (Hm : memN k (sort_keys (map fst (k_blobs kc))) = true).
+    { apply memN_In. unfold sort_keys. apply In_isort. eapply assoc_Some_in; eauto. }
+    now rewrite Hm.
+  - destruct (memN k (sort_keys (map fst (k_blobs kc)))) eqn:Hm; auto.
+    apply memN_In in Hm. unfold sort_keys in Hm. apply In_isort in Hm. apply assoc_None_notin in E. contradiction.
+Qed.
+
+Lemma nodupb_NoDup l : NoDup l -> nodupb l = true.
+Proof.
+  induction 1 as [|x t Hx Hn IH]; cbn; auto. fold (nodupb t). rewrite IH, andb_true_r.
+  apply negb_true_iff. destruct (memN x t) eqn:E; auto. apply memN_In in E. contradiction.
+Qed.
+
+Lemma snap_wf_inv c s : Inv c s -> snap_wf (k_cap (s_core s)) (csnap c) = true.
+Proof.
+  intros HI. pose proof HI as [Hc Hk Hz Hcap H64 [Hn Hm Hso Ho]].
+  unfold snap_wf, csnap. cbn [n_size n_queue n_blobs]. rewrite Hc.
+  repeat (apply andb_true_iff; split).
+  - apply N.eqb_eq. rewrite rows_sum. unfold sort_keys. rewrite ksum_isort, ksum_keys; auto.
+  - apply N.leb_le. lia.
+  - now apply nodupb_NoDup.
+  - apply forallb_forall. intros k Hq. rewrite assoc_rows. apply Hm in Hq. unfold evictableb in Hq.
+    destruct (assoc k (k_blobs (s_core s))); auto.
+  - apply forallb_forall. intros [k [[[sz cm] bn] nd]] Hr. unfold blob_rows in Hr.
+    apply in_map_iff in Hr. destruct Hr as [k0 [E Hin]]. inversion E; subst k0. clear E.
+    unfold row_node, row_evictable. cbn [fst snd].
+    destruct (assoc k (k_blobs (s_core s))) as [b|] eqn:Eb; inversion H1; subst; clear H1.
+    + assert (Hev : memN k (c_queue c) = b_complete b && negb (b_banned b)).
+      { destruct (memN k (c_queue c)) eqn:Em.
+        - apply memN_In in Em. apply Hm in Em. unfold evictableb in Em. now rewrite Eb in Em.
+        - destruct (b_complete b && negb (b_banned b)) eqn:Ev; auto.
+          assert (In k (c_queue c)) by (apply Hm; unfold evictableb; now rewrite Eb).
+          apply memN_In in H. congruence. }
+      rewrite Hev. now rewrite !eqb_reflx.
+    + cbn. destruct (memN k (c_queue c)) eqn:Em; auto. apply memN_In in Em. apply Hm in Em.
+      unfold evictableb in Em. now rewrite Eb in Em.
+Qed.
+
+Theorem lru_check_sound bk cap ops : cap < two64 ->
+  lru_check bk cap ops (snd (crun bk true (cinit cap) ops)) = true.
+Proof.
+  intros Hcap. unfold lru_check.
+  destruct (run_refines bk ops _ _ (inv_init cap Hcap)) as [Ho _]. rewrite Ho, obs_eqb_refl. cbn [andb].
+  rewrite <- Ho. clear Ho.
+  assert (G : forall ops c s, Inv c s -> k_cap (s_core s) = cap ->
+              forallb (fun x => snap_wf cap (snd x)) (snd (crun bk true c ops)) = true).
+  { clear. induction ops as [|o t IH]; intros c s HI Hc; cbn [crun]; auto.
+    destruct (step_refines bk c s o HI) as [_ HI1]. pose proof (sstep_cap bk s o) as Hc1.
+    destruct (cstep bk true c o) as [c1 r1]. destruct (sstep bk s o) as [s1 r2]. cbn [fst] in *.
+    specialize (IH c1 s1 HI1 (eq_trans Hc1 Hc)).
+    destruct (crun bk true c1 t) as [c2 rs]. cbn [snd forallb] in *.
+    rewrite IH, andb_true_r. rewrite <- Hc, <- Hc1. now apply snap_wf_inv. }
+  eapply G; [apply inv_init; auto|reflexivity].
 Qed.
